@@ -3,6 +3,7 @@
 import json, os, sys
 ROOT = os.path.dirname(os.path.dirname(os.path.abspath(__file__)))
 HOOK_COMMITS = ["e8add6c"]
+EXPL = "exploration"
 # id -> (technique, level text, level note, design ref)
 CHECKS = {
  "C01": ("runtime monitoring: outcome sets of the real loom::model on generated programs vs. an explicit-state interleaving reference (set-level oracle)",
@@ -15,6 +16,32 @@ CHECKS = {
          "Exploration: same litmus families; every result of every iteration must be allowed by the weak variant (C++20 release sequences, SeqCst accesses as AcqRel, SeqCst fences kept).",
          "trusted: rc11.rs weak variant; unique values make reads-from recoverable", "§5-C03"),
 }
+CHECKS.update({
+ "C05": ("runtime monitoring: loom::model's verdict (panic classifier) on generated blocking programs vs. can_deadlock of an explicit-state reference machine; worker-process deaths are violations",
+         "Exploration: an exhaustive core of 2-thread programs over mutexes/park/unpark/join plus random programs over all blocking primitives (some sharing objects through loom::sync::Arc); loom must report a deadlock exactly when the reference machine can reach one, and must neither panic internally nor kill the process.",
+         "trusted: sync.rs reference machine (documented std semantics) and interpreter; programs <= 4 threads x <= 4 ops", "§5-C05"),
+ "C07": ("runtime monitoring: per-iteration client-boundary log replayed on a reference lock machine (exclusion, blocking, try-exactness), value conservation, loom's race detector as happens-before witness, outcome sets vs. reference",
+         "Exploration: exhaustive 2-thread core over a mutex and a rwlock with try variants + random programs (nested sections, counters, cells under the locks); every return in every iteration must be a step the reference allows at that instant, outcome sets must equal the reference's.",
+         "trusted: sync.rs reference machine, replay monitor, interpreter", "§5-C07"),
+ "C08": ("runtime monitoring: per-iteration log replayed on the reference machine (a wait may only return when notified / token present / thread exited / the single spurious Notify return), deadlock verdict and outcome sets vs. reference, race detector as hb witness",
+         "Exploration: exhaustive 2-thread core over park/unpark, a mutex, join, Notify + random programs with condvar waiters, early/late/double notifications and notifications aimed at threads blocked elsewhere.",
+         "trusted: sync.rs reference machine (FIFO condvar for completeness, any waiter for soundness), replay monitor", "§5-C08"),
+ "C09": ("runtime monitoring: exactly-once / FIFO checker over unique message ids via log replay on a reference queue, leak/deadlock verdicts and outcome sets vs. reference, race detector as hb witness (including the no-over-synchronisation direction)",
+         "Exploration: every program with <= 2 senders x <= 2 sends x <= 3 receives (recv/try_recv) + random programs with cells, receiver dropped or forgotten at the end.",
+         "trusted: sync.rs reference machine, replay monitor; only the main thread receives; senders live to the end of the iteration", "§5-C09"),
+ "C13": ("runtime monitoring across process restarts: per-iteration sequences (outcomes, execution orders, decision paths from the iteration hook) of repeated, stopped, crashed (process abort) and resumed runs compared with the uninterrupted run",
+         "Fault enumeration over crash points: every stop point k x 5 checkpoint intervals through a real checkpoint file, process aborts at the start / in the middle of an iteration resumed in a fresh process, failing iterations reloaded from their checkpoint.",
+         "trusted: lit.rs interpreter, iteration hook; crash during loom's own file write is not injected", "§5-C13"),
+ "C14": ("runtime monitoring: online trie monitor over the decision path of every iteration (iteration hook): distinctness, prefix contiguity (depth-first), ordered alternatives, nothing left unexplored, hook calls = iterations",
+         "Exploration: classic litmus shapes + random litmus programs (schedule and load branches); every iteration of every model run is checked.",
+         "trusted: pathmon.rs, verif-hooks snapshot; termination only in bounded form (iteration cap)", "§5-C14"),
+ "C15": ("runtime monitoring: preemptions counted independently of loom (from decision paths and from the client-boundary log) for bounds 0..6 and a bound >= #operations; result-set inclusions between bounds and the unbounded run",
+         "Exploration: 9 model runs per program over classic + random litmus programs.",
+         "trusted: pathmon.rs preemption counter, lit.rs interpreter", "§5-C15"),
+ "C19": ("runtime monitoring: decision-path trie (no alternative explored at a branch taken with exploration disabled), metamorphic result-set comparisons for six control placements, exact-need probes for max_branches / max_permutations / max_duration / max_threads",
+         "Exploration: ~19 model runs per program over classic + random litmus programs plus child-process probes of max_threads.",
+         "trusted: pathmon.rs, lit.rs interpreter; equality only demanded where the region provably holds no two-alternative decision", "§5-C19"),
+})
 NOT_YET = {}
 def main():
     props = [json.loads(l) for l in open(os.path.join(ROOT, "properties.jsonl"))]
